@@ -1175,6 +1175,16 @@ class Sum(Expression):
         expression = self.expression
         ranges = set(self.ranges)
 
+        # a variable that is summed over can not be dropped while it still appears as an intervention
+        intervened = {
+            intervention.get_base()
+            for child in getattr(expression, "children", ())
+            if isinstance(child, CounterfactualVariable)
+            for intervention in child.interventions
+        }
+        if ranges & intervened:
+            return self
+
         # Special case when ranges cover
         if isinstance(expression, Probability) and not expression.parents:  # i.e., no conditions
             children = {
